@@ -64,6 +64,10 @@ def make_query(rng, st):
         outer = ["f", [rng.choice(["has", "has", "not"]), ["p", [rng.choice([["gwc"], ["wc"], ["k", key], ["iwc"]]), inner]], []]]
         pos = rng.randint(1, len(sc["path"])) if sc["path"] else 0
         sc["path"] = [x for x in sc["path"][:pos]] + [outer] + sc["path"][pos:]
+    if st.get("resume") and sc["api"] in ("find", "find_matches") and rng.random() < st["resume"]:
+        # the iterator is used again after it raised (the consumer caught the error and went on)
+        sc["nexts"] = "drain"
+        sc["extra"] = rng.choice([1, 2, 3])
     if st.get("nexts") == "drain" and sc["api"] in ("find", "find_matches"):
         sc["nexts"] = "drain"
         sc["extra"] = rng.choice([0, 1])
@@ -300,9 +304,9 @@ def run_corpus(ctx, cfg):
 # ------------------------------------------------------------------ registry
 
 def Q(profile="all", pred="mixed", apis=None, src=None, maxlen=5, nexts=None, share=1.0, untraced=0.0, up=0.0, climb_in_has=0.0,
-      par_filter_par=0.0, guarded=0.0):
+      par_filter_par=0.0, guarded=0.0, resume=0.0):
     return dict(kind="q", profile=profile, pred_profile=pred, apis=apis, src=src, maxlen=maxlen, nexts=nexts, share=share,
-                untraced=untraced, up=up, climb_in_has=climb_in_has, par_filter_par=par_filter_par, guarded=guarded)
+                untraced=untraced, up=up, climb_in_has=climb_in_has, par_filter_par=par_filter_par, guarded=guarded, resume=resume)
 
 
 ALL_APIS = ["find_matches", "find", "get_match", "get"]
@@ -411,9 +415,9 @@ register("C03", streams=[Q("filter", pred="custom", apis=["find_matches"], src=F
                          Q("filter", pred="below", apis=["find_matches"], src=False, share=1)],
          observables=["calls", "results_exc"], oracles=[oracles.deep_oracle],
          rule="paths with filters in any position (root, after wildcard/rec/slice, stacked, followed by steps); predicates are decision tables over the candidate returning arbitrary truthy/falsy objects or raising, neighbour lookups, and has-family predicates; compared: results, per-candidate call log (path, data_name, data, parent), exception cause chain")
-register("C04", streams=[Q("filter", pred="has", apis=["find_matches"], src=False, share=5, untraced=0.4, guarded=0.04),
+register("C04", streams=[Q("filter", pred="has", apis=["find_matches"], src=False, share=5, untraced=0.4, guarded=0.04, resume=0.3),
                          Q("filter", pred="below", apis=["find_matches"], src=False, share=1, untraced=0.4)],
-         observables=["fncalls", "results_exc"],
+         observables=["fncalls", "results_exc"], oracles=[oracles.has_again_oracle],
          rule="has/has_not/has_all/has_any trees (depth<=3) over relative paths incl. wildcards, recursion, parent steps, nested filters; six operators; constants of every JSON kind; conversion chains of length 0-3 that raise on part of the data; compared: results, conversion call order, exception chain")
 register("C05", streams=[Q("all", apis=ALL_APIS, src=None, share=3, untraced=0.4), Q("parent", apis=ALL_APIS, src=True, share=1, untraced=0.4),
                          Q("keyidx", apis=ALL_APIS, src=None, share=1, untraced=0.6)],
